@@ -619,6 +619,10 @@ def _r5_r6_sta(ck: Checker, prog: Program):
         ren = {sp.Symbol(k, real=True): v for k, v in pos.items()}
         return rewrite(e, lambda x: x in ren, lambda x: ren[x])
     cond = named(cond)
+    # slicing commutes with the element-wise absolute value: |x|[a:b] is |x[a:b]|
+    from ..pathtable import rewrite as _rw
+    _gi = sp.Function("getitem")
+    cond = _rw(cond, lambda e: getattr(e, "func", None) == _gi and isinstance(e.args[0], sp.Abs), lambda e: sp.Abs(_gi(e.args[0].args[0], e.args[1])))
     true_rejects = True
 
     class _T:       # the few things the checks below ask of a translator
